@@ -2,6 +2,7 @@
 import ast
 import itertools
 
+from ..core import generic as G
 from ..core import astutil as A
 from ..core import match as M
 from ..core.mirror import canon
@@ -261,6 +262,13 @@ def run(ctx):
         if isinstance(n, ast.Call) and isinstance(n.func, ast.Attribute) and n.func.attr in MUT and isinstance(n.func.value, ast.Name) and n.func.value.id in ps:
             ctx.check("R4", f, False, f"mutates-param:{n.func.value.id}", "", f"find_constraint_satisfaction mutates its argument `{n.func.value.id}` (`{A.unparse(n)[:50]}`)", node=n)
     ctx.ob("R4", f, f"no in-place mutation of parameters {ps}")
+    lazy = [n for n in A.body_walk(f.node) if isinstance(n, (ast.Yield, ast.YieldFrom))]
+    ctx.check("R4", f, not lazy, "reads-arguments-at-call-time",
+              "find_constraint_satisfaction is an ordinary function: IUSE and the forced / preferred sets are read when it is called",
+              "find_constraint_satisfaction is a generator function: nothing in its body (reading iuse, force_true, force_false, prefer_true, building the problem) runs "
+              "before the first solution is requested, so the assignments follow whatever the caller's set objects contain by then, not the call-time arguments",
+              node=lazy[0] if lazy else None)
+    G.pure(ctx, "R4", [("pkgcore.restrictions.required_use", "find_constraint_satisfaction", (), "the caller's flag sets are inputs, not scratch space")])
 
     # ---- R2 dispatch ---------------------------------------------------------------------
     single = P.func("pkgcore.restrictions.required_use", "__to_single_constraint")
